@@ -34,9 +34,24 @@ var vC07Progs = []string{
 	"9223372036854775800d6 + 9223372036854775800d6",
 	"b9223372036854775807",
 	"&v1 = 5000d1; func fn1() { v1 }; i = 0; while i < 100 { fn1(); i = i + 1 }",
+	// work done by the host's default-sides expression (prefix #def=...#)
+	"#def=7000d1#i = 0; while i < 10 { i = i + 1; d }",
+	"#def=v1 ?? 100#&v1 = 9000d1; i = 0; while i < 5 { i = i + 1; 2d }",
 }
 
-//vh:prop=C07 tiers=quick,thorough sigkeys=prog,dicemode summaries=Roll:roll-log maxsteps=120000000 hang_is_violation=1 budget_s=1500 bounds="21 adversarial programs (endless loops, unbounded and exponential recursion, self-referential computed value, huge dice counts incl. counts that overflow the counter, a function that reads a costly computed value in a loop, doubling arrays and strings, huge range, exploding WoD / Double Cross pools) under op budgets {200, 30000} and dice modes {random with low faces, min, max}: evaluation must end within 120M interpreter steps (else: hang, confirmed natively with a timeout); when it ends without error the counter and the number of dice rolled are within the budget, and with an error the dice rolled exceed the budget by at most one batch"
+// vC07Src strips a "#def=EXPR#" prefix and installs EXPR as the VM's
+// default-sides expression.
+func vC07Src(vm *Context, src string) string {
+	if strings.HasPrefix(src, "#def=") {
+		rest := src[len("#def="):]
+		k := strings.Index(rest, "#")
+		vm.Config.DefaultDiceSideExpr = rest[:k]
+		return rest[k+1:]
+	}
+	return src
+}
+
+//vh:prop=C07 tiers=quick,thorough sigkeys=prog,dicemode summaries=Roll:roll-log maxsteps=120000000 hang_is_violation=1 budget_s=1500 bounds="23 adversarial programs (endless loops, unbounded and exponential recursion, self-referential computed value, huge dice counts incl. counts that overflow the counter, a function that reads a costly computed value in a loop, doubling arrays and strings, huge range, exploding WoD / Double Cross pools, costly default-sides expressions) under op budgets {200, 30000} and dice modes {random with low faces, min, max}: evaluation must end within 120M interpreter steps (else: hang, confirmed natively with a timeout); when it ends without error the counter and the number of dice rolled are within the budget, and with an error the dice rolled exceed the budget by at most one batch"
 func VH_C07_budget() {
 	k := vParam("prog", -1)
 	if k < 0 {
@@ -51,7 +66,7 @@ func VH_C07_budget() {
 	case 2:
 		vm.Config.DiceMaxMode = true
 	}
-	err := vm.Run(vC07Progs[k])
+	err := vm.Run(vC07Src(vm, vC07Progs[k]))
 	vReach("returned")
 	if err == nil {
 		vAssert(vm.NumOpCount <= budget, "no-error-implies-counter-within-budget")
@@ -68,14 +83,15 @@ func VH_C07_budget() {
 // every instruction executed and every die rolled is counted
 var vC07CountProgs = []string{
 	"1+2*3", "[1,2,3].sum()", "3d6", "2d6kh1", "b2", "p3", "b(0-5)", "f", "3a8", "2c8", "x = 5; x + 1", "'a' + 'b'", "[1,2,3][1]", "{'k':1}.k",
+	"#def=3d1 + 2#2d + d", "#def=v1#&v1 = 4d1; d + d", "func fn1() { 3d6 }; fn1() + fn1()", "&v1 = 2d4; v1 + v1",
 }
 
-//vh:prop=C07 tiers=quick,thorough sigkeys=prog summaries=Roll:roll-log budget_s=600 bounds="14 straight-line programs (no loops): after evaluation the operation counter is at least the number of instructions of the compiled program plus the number of dice rolled (generator outputs consumed), and never negative"
+//vh:prop=C07 tiers=quick,thorough sigkeys=prog summaries=Roll:roll-log budget_s=600 bounds="18 straight-line programs (no loops; incl. dice inside functions, computed values and the default-sides expression): after evaluation the operation counter is at least the number of instructions of the compiled program plus the number of dice rolled (generator outputs consumed), and never negative"
 func VH_C07_count() {
 	k := vChoice("prog", len(vC07CountProgs))
 	vm := vSeededVM()
 	vm.Config.OpCountLimit = 30000
-	err := vm.Run(vC07CountProgs[k])
+	err := vm.Run(vC07Src(vm, vC07CountProgs[k]))
 	vReach("returned")
 	vAssert(vm.NumOpCount >= 0, "counter-never-negative")
 	if err != nil {
